@@ -1,4 +1,5 @@
 """Shared runner for the reply/dataset differential checks (C01, C03, C04, C15, C16)."""
+import threading
 import time
 
 from .. import server, util, resp, gen
@@ -15,8 +16,28 @@ def worker(wseed, prop, genname, budget_s, hist_len, binary, check_every=0, max_
     genmod = importlib.import_module("fv." + genname.split(":")[0])
     genfn = getattr(genmod, genname.split(":")[1])
     srv = server.Server(binary, extra_env=extra_env, start_timeout=60.0 if label else 20.0).start()
+    stop_saver = threading.Event()
+    saves = [0]
+
+    def saver():
+        # sanitizer passes: a second connection keeps the save thread walking the Arc-shared values
+        # (sorted sets, consumer groups) while the differential mutates them - a sanitizer only sees
+        # what the workload makes two threads do
+        try:
+            c = srv.client(timeout=30)
+            while not stop_saver.is_set():
+                if isinstance(c.cmd("BGSAVE"), resp.Status):
+                    saves[0] += 1
+                time.sleep(0.015)
+        except (resp.Closed, resp.Timeout, OSError):
+            pass
+
+    saver_thread = None
     try:
         d = Differ(srv, res, prop, known, timeout=30.0 if label else 10.0)
+        if label:
+            saver_thread = threading.Thread(target=saver, daemon=True)
+            saver_thread.start()
         t_end = time.time() + budget_s
         histories = 0
         while time.time() < t_end and (max_cmds is None or res.evaluations < max_cmds):
@@ -57,6 +78,10 @@ def worker(wseed, prop, genname, budget_s, hist_len, binary, check_every=0, max_
                 continue
         res.count("histories", histories)
     finally:
+        stop_saver.set()
+        if saver_thread is not None:
+            saver_thread.join(timeout=35)
+            res.count("%s_bgsaves_beside_the_workload" % label, saves[0])
         res.count("server_starts", srv.starts)
         if label:
             from .. import sanitize
